@@ -3,6 +3,7 @@ package main
 import (
 	"fmt"
 	"go/token"
+	"go/types"
 	"sort"
 	"strings"
 
@@ -13,7 +14,7 @@ func init() {
 	register(&Prop{
 		ID:         "C13",
 		Title:      "Primary keys identify items faithfully and are enforced",
-		Decided:    "(R1) the function that renders a composite key must use an injective encoding (per-component quoting/escaping of the separator, a length prefix, or %q): joining raw renderings with a constant separator that can occur inside a component is recognised as the non-injective idiom; (R2) at every call site of keySchema.GetKey the error result is extracted and tested (the only accepted discard is the sparse-index case inside GetKey itself); (R3) in the key-attribute accessors the case for type label X returns field X of the attribute and tests presence of that same field, and a value is produced only on the present∧typed edges; (R4) UpdateItem re-derives the key of the updated item before committing and rejects a change; (R5) GetItem/Delete/Update address Table.Data with the key derived from the request's Key by the table's own schema (shared with C01.R3); (R6) no function on the key derivation path rounds, trims, folds or re-formats a component (shared with C01.R8): two different key values never become one key string; (R7) the declared type of an attribute decides how its key text is built and which requests are well typed: every write into Table.AttributesDef that a client operation other than table creation can reach is guarded by a test that the attribute is not defined yet; (R8) in both clients every success return of PutItem, UpdateItem, DeleteItem and GetItem is dominated by a call into the engine that derives the key with the table's schema (the only place a missing or wrongly typed key attribute is rejected): a shortcut that answers before that call accepts malformed keys; (R9) SET stores a copy of its operand (= C07.R11): otherwise `SET next = seq ADD next :one` increments the key attribute seq through the object the two names share; (R10) the bare errors of the key derivation never reach a v2 caller unwrapped (error-class dataflow through helpers and the mapper).",
+		Decided:    "(R1) the function that renders a composite key must use an injective encoding (per-component quoting/escaping of the separator, a length prefix, or %q): joining raw renderings with a constant separator that can occur inside a component is recognised as the non-injective idiom; (R2) at every call site of keySchema.GetKey the error result is extracted and tested (the only accepted discard is the sparse-index case inside GetKey itself); (R3) in the key-attribute accessors the case for type label X returns field X of the attribute and tests presence of that same field, and a value is produced only on the present∧typed edges; (R4) UpdateItem re-derives the key of the updated item before committing and rejects a change; (R5) GetItem/Delete/Update address Table.Data with the key derived from the request's Key by the table's own schema (shared with C01.R3); (R6) no function on the key derivation path rounds, trims, folds or re-formats a component (shared with C01.R8): two different key values never become one key string; (R7) the declared type of an attribute decides how its key text is built and which requests are well typed: every write into Table.AttributesDef that a client operation other than table creation can reach is guarded by a test that the attribute is not defined yet; (R8) in both clients every success return of PutItem, UpdateItem, DeleteItem and GetItem is dominated by a call into the engine that derives the key with the table's schema (the only place a missing or wrongly typed key attribute is rejected): a shortcut that answers before that call accepts malformed keys; (R9) SET stores a copy of its operand (= C07.R11): otherwise `SET next = seq ADD next :one` increments the key attribute seq through the object the two names share; (R10) the bare errors of the key derivation never reach a v2 caller unwrapped (error-class dataflow through helpers and the mapper).; (R11) no function on the key derivation path converts a byte slice to raw text (string(b), %s) unless the text goes straight into a quoting or hex encoder: the %v rendering of a binary key cannot contain the separator, its raw bytes can – the known R1 finding is about text components only.",
 		NotDecided: "that the rendering of each single component is itself injective per type (%v of a string, of a number literal: see C12 for numerals); attribute types that DynamoDB does not allow as keys.",
 		Rules: []RuleDef{
 			{ID: "R1", Desc: "composite key encoding is injective (idiom rule on the key-rendering function)", Run: c13R1},
@@ -57,6 +58,7 @@ func init() {
 			{ID: "R8", Desc: "single-item operations report success only after the engine has validated the key: every success return of the client methods is dominated by the core call that derives the key", Run: c13R8},
 			{ID: "R9", Desc: "an update cannot change a key attribute through a shared object: SET stores a copy of its operand (= C07.R11)", Run: aliasRule("R9", c07R11, nil)},
 			{ID: "R10", Desc: "a malformed key is rejected with a validation error: the bare errors of the key derivation reach a v2 caller only wrapped (error-class dataflow)", Run: c13R10},
+			{ID: "R11", Desc: "a binary key component is never rendered as its raw bytes: on the key derivation path no []byte is converted to text (string(b), %s) unless the text goes straight into a quoting/hex encoder – raw bytes can contain the separator, the bracketed decimal list of %v cannot", Run: c13R11},
 		},
 	})
 }
@@ -588,5 +590,83 @@ func c13R8(e *Engine) {
 	}
 	if n < 8 {
 		e.fail("R8", "count:R8", "-", "only %d single-item operations found in the two clients", n)
+	}
+}
+
+// c13R11: the known R1 finding is the separator inside a *text* component (S, N). A byte-slice component is rendered
+// by %v as "[97 46 98]", which cannot contain the separator; rendering it as raw bytes opens the same collision for B keys.
+func c13R11(e *Engine) {
+	gk := e.fn("core", "keySchema.GetKey")
+	if !e.anchor("R11", "core.keySchema.GetKey", gk == nil) {
+		return
+	}
+	encoded := func(v ssa.Value) bool {
+		refs := v.Referrers()
+		if refs == nil || len(*refs) == 0 {
+			return false
+		}
+		for _, r := range *refs {
+			c, ok := r.(*ssa.Call)
+			if !ok {
+				return false
+			}
+			switch staticCalleeName(c) {
+			case "strconv.Quote", "strconv.QuoteToASCII", "net/url.QueryEscape", "encoding/hex.EncodeToString", "encoding/base64.(*Encoding).EncodeToString":
+			default:
+				return false
+			}
+		}
+		return true
+	}
+	isBytes := func(t types.Type) bool {
+		sl, ok := t.Underlying().(*types.Slice)
+		if !ok {
+			return false
+		}
+		b, ok := sl.Elem().Underlying().(*types.Basic)
+		return ok && b.Kind() == types.Uint8
+	}
+	bad, fns := 0, 0
+	for g := range e.reach(gk) {
+		if e.fnRole(g) != "core" {
+			continue
+		}
+		fns++
+		instrs(g, func(in ssa.Instruction) {
+			switch x := in.(type) {
+			case *ssa.Convert:
+				if isBytes(x.X.Type()) && isStringType(x.Type()) && !encoded(x) {
+					bad++
+					e.fail("R11", "core:key-component:bytes-as-text", e.ipos(in), "%s converts a byte slice to text on the key derivation path: a binary key keeps its raw bytes, which can contain the separator of the composite key – B keys (\"a.b\",\"c\") and (\"a\",\"b.c\") become one key string", e.fname(g))
+				}
+			case *ssa.Call:
+				if staticCalleeName(x) != "fmt.Sprintf" && staticCalleeName(x) != "fmt.Sprint" {
+					return
+				}
+				f, isConst := "", false
+				args := x.Call.Args
+				if staticCalleeName(x) == "fmt.Sprintf" {
+					f, isConst = constString(args[0])
+					args = args[1:]
+					if !isConst || !strings.Contains(f, "%s") {
+						return
+					}
+				} else {
+					return
+				}
+				for _, a := range variadicElems(args[0]) {
+					st := strip(a)
+					_, isIface := st.Type().Underlying().(*types.Interface)
+					if (isBytes(st.Type()) || (isIface && !isErrorType(st.Type()))) && !encoded(x) {
+						bad++
+						e.fail("R11", "core:key-component:bytes-as-text", e.ipos(in), "%s renders a value that may be a byte slice with %%s on the key derivation path: a binary key keeps its raw bytes, which can contain the separator of the composite key", e.fname(g))
+						return
+					}
+				}
+			}
+		})
+	}
+	if bad == 0 {
+		e.pass("R11", "core:key-component:bytes-as-text", e.pos(gk.Pos()), "no function of the key derivation path (%d core functions reachable from GetKey) turns a byte slice into raw text", fns)
 	}
 }
